@@ -302,13 +302,20 @@ func runDelivery(c DCase) (map[string]int, error) {
 func genDelivery(t *rapid.T) DCase {
 	c := DCase{Senders: rapid.IntRange(1, 8).Draw(t, "senders")}
 	c.Inbox = rapid.SampledFrom([]int{1, 1, 2, 2, 3, 4, 5, 8, 16, 64, 1024}).Draw(t, "inbox")
-	big := rapid.IntRange(0, 39).Draw(t, "big") == 0
-	hi := 40
-	if big {
+	size := rapid.IntRange(0, 119).Draw(t, "big")
+	lo, hi := 0, 40
+	switch {
+	case size < 3:
 		hi = 1500
+	case size == 3:
+		// one backlog that spans more than one batch of 4096 (messageBatchSize): the receiver is
+		// blocked while 4097..9000 messages pile up behind it, so PopN returns a full batch and the
+		// ring grows by doubling several times while partly consumed
+		c.Senders = rapid.IntRange(1, 3).Draw(t, "senders_big")
+		lo, hi = 4097/c.Senders+1, 9000/c.Senders
 	}
 	for g := 0; g < c.Senders; g++ {
-		c.PhaseA = append(c.PhaseA, rapid.IntRange(0, hi).Draw(t, "a"))
+		c.PhaseA = append(c.PhaseA, rapid.IntRange(lo, hi).Draw(t, "a"))
 		c.PhaseB = append(c.PhaseB, rapid.IntRange(0, hi).Draw(t, "b"))
 		c.Actor = append(c.Actor, rapid.IntRange(0, 3).Draw(t, "actor") == 0)
 	}
